@@ -332,6 +332,46 @@ fn check_pair(sub: &str, text: &str, doc: &str, st: &mut Stats) -> CaseResult {
     Ok(())
 }
 
+/// The public error constructor on arbitrary (text, byte offset, reason):
+/// coordinates and rendering follow the same rules as for errors the library
+/// raises itself.
+fn error_api(src: &mut Src, st: &mut Stats, _env: &Env) -> CaseResult {
+    use jmespath::{ErrorReason, JmespathError, RuntimeError};
+    let n = src.size(200);
+    let mut text = String::new();
+    for _ in 0..n {
+        match src.below(8) {
+            0 => text.push('\n'),
+            1 => text.push_str(*src.pick(&["é", "日本", "😀", "\r\n", "\u{301}", "\t"])),
+            _ => text.push(gen_char(src)),
+        }
+    }
+    // a byte offset on a character boundary (including 0 and len)
+    let bounds: Vec<usize> = text.char_indices().map(|(i, _)| i).chain(std::iter::once(text.len())).collect();
+    let offset = bounds[src.below(bounds.len())];
+    let reason = match src.below(4) {
+        0 => ErrorReason::Parse("msg é".to_string()),
+        1 => ErrorReason::Runtime(RuntimeError::InvalidSlice),
+        2 => ErrorReason::Runtime(RuntimeError::UnknownFunction("fé".to_string())),
+        _ => ErrorReason::Runtime(RuntimeError::TooManyArguments { expected: 1, actual: 2 }),
+    };
+    st.eval();
+    let e = match catch(std::panic::AssertUnwindSafe(|| JmespathError::new(&text, offset, reason.clone()))) {
+        Ok(e) => e,
+        Err(p) => return Err(Failure::new("error-api", "panic", p, json!({"expression": text, "offset": offset}))),
+    };
+    let ie = crate::imp::classify(&e);
+    record_invariants("error-api", &text, &ie, "")?;
+    if e.reason != reason || e.offset != offset {
+        return Err(Failure::new("error-api", "error-record-altered", format!("{:?}", e), json!({"expression": text, "offset": offset})));
+    }
+    let head = &text[..offset];
+    if (head.contains('\n') || !head.is_ascii()) && st.nontrivial(&format!("{}|{}", text, offset)) {
+        st.sample(|| json!({"expression": text, "offset": offset, "line": e.line, "column": e.column}));
+    }
+    Ok(())
+}
+
 const FIXED: &[(&str, &str)] = &[
     ("sum(`[1e308, 1e308]`)", "{}"),
     ("avg(`[1e308, 1e308]`)", "{}"),
@@ -380,6 +420,7 @@ pub fn property() -> Property {
         subs: vec![
             Sub::Custom(CustomSub { name: "cases", run: fixed_cases, replay: replay_case }),
             Sub::Bytes(BytesSub { name: "compile-errors", f: compile_errors, max_len: 1200, quick: Budget { threads: 8, cases: 5000 }, thorough: Budget { threads: 16, cases: 200_000 }, keep_unreproducible: false }),
+            Sub::Bytes(BytesSub { name: "error-api", f: error_api, max_len: 600, quick: Budget { threads: 4, cases: 3000 }, thorough: Budget { threads: 16, cases: 100_000 }, keep_unreproducible: false }),
             Sub::Bytes(BytesSub { name: "planted", f: planted, max_len: 64, quick: Budget { threads: 8, cases: 4000 }, thorough: Budget { threads: 16, cases: 100_000 }, keep_unreproducible: false }),
             Sub::Bytes(BytesSub { name: "arbitrary", f: arbitrary, max_len: 2500, quick: Budget { threads: 8, cases: 4000 }, thorough: Budget { threads: 16, cases: 150_000 }, keep_unreproducible: false }),
         ],
